@@ -670,6 +670,38 @@ func checkWalkCallback(c *Ctx, p *core.Prog, fns []*ssa.Function) {
 		if okInfo {
 			c.R.OK("R12.6", core.ShortFn(f)+": the walk callback uses its FileInfo only where err == nil", p.Pos(f.Pos()), "no unguarded use")
 		}
+		// R12.15 what the callback decides for an entry depends on that entry alone: the only variable of the enclosing function
+		// it assigns is the list it collects into. A flag carried from one entry to the next ("the directory being walked is a
+		// category/name directory") is stale after the walk comes back out of a sub-directory, and the files behind it are lost.
+		{
+			badV := ""
+			nSt := 0
+			for _, b := range f.Blocks {
+				for _, in := range b.Instrs {
+					st, isSt := in.(*ssa.Store)
+					if !isSt {
+						continue
+					}
+					fv, isFV := st.Addr.(*ssa.FreeVar)
+					if !isFV {
+						continue
+					}
+					nSt++
+					if _, isSl := st.Val.Type().Underlying().(*types.Slice); isSl {
+						if ap, isCall := st.Val.(*ssa.Call); isCall {
+							if bi, isB := ap.Call.Value.(*ssa.Builtin); isB && bi.Name() == "append" {
+								continue
+							}
+						}
+					}
+					if badV == "" {
+						badV = fv.Name() + " (" + p.Pos(st.Pos()) + ")"
+					}
+				}
+			}
+			c.R.Check(badV == "", "R12.15", core.ShortFn(f)+": the walk callback carries nothing from one entry to the next but the list of files", p.Pos(f.Pos()), fmt.Sprintf("%d assignments of captured variables, all appends to the list", nSt),
+				"the callback assigns the captured variable "+badV+": what it does with an entry depends on which entries came before it - after the walk has left a sub-directory the value is stale, and files that sort behind that sub-directory are left out")
+		}
 		// R12.8 only files are collected: a path is appended to the list only where the entry was tested not to be a directory
 		for _, call := range core.CallsIn(f) {
 			bi, isB := call.Common().Value.(*ssa.Builtin)
